@@ -21,7 +21,7 @@ EXPLANATION += (  # round-3 supplement
     ' U6 covers every parser::meta::Span built in the crate (constant parts are reviewed sites). U7 the default chain of `match` is generated only if some variant lacks an arm of its own.'
 )
 EXPLANATION += (
-    ' U8 every span is converted to a character range with the text of the file the span itself cites (the same span expression selects the file name, is converted and selects the text; spans of one parse error and its hints come from one parser run). U9 who may panic explicitly on the compile path: only ice! and reviewed invariant sites. U10 termination of the import fixpoint: the no-progress test compares the count after a round with the count taken at the start of the same round.'
+    ' U8 every span is converted to a character range with the text of the file the span itself cites (the same span expression selects the file name, is converted and selects the text; spans of one parse error and its hints come from one parser run). U9 who may panic explicitly on the compile path: only ice! and reviewed invariant sites. U10 termination of the import fixpoint: the no-progress test compares the count after a round with the count taken at the start of the same round. U11 a stub declaration is inserted with an update_if that accepts nothing (only definitions replace stubs), so repeated names are reported by the stub pass.'
 )
 ASSUMPTIONS = [
     "std's documented panic conditions for str slicing",
@@ -738,9 +738,75 @@ def rule_u10(F):
     return r
 
 
+def rule_u11(F):
+    """Names are declared in two steps - a stub first (so that items can refer to each other), the definition later - and a repeated
+    name is detected when the SECOND STUB meets the first: `insert_declaration(.., update_if)` replaces an existing entry only if
+    `update_if` accepts it.  So a declaration that is (or may be) a stub must be inserted with an `update_if` that accepts nothing;
+    only a definition may replace a stub.  (If a stub may replace a stub, `enum E { A, A }` passes the stub pass and the definition
+    pass then unwraps an Err: the compiler panics instead of reporting the duplicate.)"""
+    r = RuleResult("C06.U11", "a stub declaration never replaces an existing stub: repeated names are reported, not carried into the definition pass", floor=8)
+    for b in F.bodies_in(["src/typechecker/mod.rs", "src/typechecker/scope.rs", "src/typechecker/function.rs"]):
+        if not b.hir or "::tests::" in b.path:
+            continue
+        ld = hir.LocalDefs(b.hir)
+        for c in hir.nodes(b.hir.get("value") or {}, "mcall"):
+            if c["m"] != "insert_declaration" or len(c["args"]) != 5:
+                continue
+            kind = follow(ld, c["args"][2])
+            cl = hir.strip(c["args"][4])
+
+            def payload_state(e, depth=0):
+                """'stub' | 'def' | 'maybe' for the payload of a DeclarationKind constructor"""
+                e = follow(ld, e)
+                if not isinstance(e, dict) or depth > 4:
+                    return "maybe"
+                k = e.get("k")
+                if k == "path":
+                    d = hir.res_def(e) or ""
+                    if hir.last(d) == "None":
+                        return "stub"
+                    if hir.res_local(e) is not None:
+                        return "maybe"
+                    return "def"
+                if k == "call":
+                    d = hir.call_def(e) or ""
+                    if hir.last(d) == "Some":
+                        return "def"
+                    if "TypeOrStub::Type" in d:
+                        return "def"
+                    return "def"
+                if k == "struct":
+                    d = hir.res_def({"res": e.get("path") or {}}) or ""
+                    return "stub" if "Stub" in d else "def"
+                return "maybe"
+            state = "def"
+            if kind.get("k") == "call":
+                for a in kind.get("args") or []:
+                    st_ = payload_state(a)
+                    if st_ == "stub":
+                        state = "stub"
+                        break
+                    if st_ == "maybe" and "Option" in str(hir.strip(a).get("ty") or follow(ld, a).get("ty") or ""):
+                        state = "maybe"
+            elif kind.get("k") == "path" and hir.res_local(kind) is not None:
+                state = "maybe"
+            accepts_nothing = False
+            if cl.get("k") == "closure":
+                body = hir.strip(cl.get("body") or {})
+                while body.get("k") == "block" and not (body.get("stmts") or []) and body.get("expr") is not None:
+                    body = hir.strip(body["expr"])
+                accepts_nothing = body.get("k") == "lit" and body.get("v") is False
+            r.inst("%s line %s" % (hir.last(b.path.split("::{closure")[0]), c.get("line")), {"fn": b.path, "line": c.get("line"), "declares": state, "replaces_nothing": accepts_nothing})
+            if state in ("stub", "maybe") and not accepts_nothing:
+                r.bad(b.path.split("::{closure")[0], "stub inserted with a replacing update_if", relfile(b.file), c.get("line"),
+                      "a declaration that %s a stub is inserted with an `update_if` that can accept an existing entry: a repeated name replaces the first stub silently and the duplicate is only "
+                      "met by the definition pass, which unwraps the error (`enum Colour { Red, Green, Red }` panics the compiler)" % ("is" if state == "stub" else "may be"))
+    return r
+
+
 def rules(ctx):
     F = ctx["F"]
-    return [rule_u1(F), rule_u2(F), rule_u3(F), rule_u3b(F), rule_u4(F), rule_u5(F), rule_u6(F), rule_u7(F), rule_u8(F), rule_u9(F), rule_u10(F)]
+    return [rule_u1(F), rule_u2(F), rule_u3(F), rule_u3b(F), rule_u4(F), rule_u5(F), rule_u6(F), rule_u7(F), rule_u8(F), rule_u9(F), rule_u10(F), rule_u11(F)]
 
 
 def canary(C):
